@@ -103,6 +103,9 @@ Step ==
          /\ bad' = IF Cur.q = "hang" THEN "StopReturns" ELSE "none"
          /\ drift' = "none"
          /\ UNCHANGED <<cnt, fil, clo>>
+    [] e = "h_ctx_cancelled_before_pool_close" ->   \* mechanism of Close's fixed order, not a property clause
+         /\ bad' = "none" /\ drift' = "cancel_before_pools"
+         /\ UNCHANGED <<cnt, fil, clo>>
     [] OTHER ->
          /\ bad' = "none" /\ drift' = "none"
          /\ UNCHANGED <<cnt, fil, clo>>
